@@ -209,6 +209,8 @@ def check_privkey(case):
     cls = []
     if valid:
         cls.append("valid-key" if v.bit_length() > 248 and v not in (1, N - 1) else "nt:valid-boundary-or-leading-zero")
+        if case.get("textlike"):
+            cls.append("nt:valid-key-reads-as-text")
     else:
         cls.append("nt:invalid-len" if len(b) != 32 else "nt:invalid-range")
     from bits.utils import privkey_int
@@ -302,7 +304,10 @@ def law_cases(draw):
 
 @st.composite
 def privkey_cases(draw):
-    kind = draw(st.sampled_from(["len", "len-near-valid", "boundary", "valid", "random32"]))
+    kind = draw(st.sampled_from(["len", "len-near-valid", "boundary", "valid", "random32", "text-like"]))
+    if kind == "text-like":
+        # a valid key whose 32 bytes read as text (hex digits, whitespace, a WIF fragment): opaque bytes all the same
+        return {"key": draw(gen.lookalike_keys32()).hex(), "point": True, "textlike": 1}
     if kind == "len-near-valid":
         # a valid key in a byte string of the wrong length: padded with a zero / sign / flag byte at either end, or with
         # its leading zero byte dropped (encodings other layers use for the same integer)
@@ -345,6 +350,6 @@ def targets(tier):
                          "nt:after-mod-n-division-by-the-slope-denominator", "nt:operand-coordinate-in-n..p"]),
         Target("law-small", check_small, enumerate_=enum_small, exhaustive=True, required=["nt:small-after-ecdsa-verify"]),
         Target("privkey", check_privkey, strategy=lambda tier: privkey_cases(), budget={"quick": 1500, "thorough": 30000},
-               required=["nt:invalid-len", "nt:invalid-range", "nt:valid-boundary-or-leading-zero"]),
+               required=["nt:invalid-len", "nt:invalid-range", "nt:valid-boundary-or-leading-zero", "nt:valid-key-reads-as-text"]),
         Target("keygen", check_keygen, enumerate_=enum_keygen, required=["nt:draw-zero || rng-not-consulted", "nt:draw-max || rng-not-consulted", "nt:draw-one || rng-not-consulted"], shards=2),
     ]
